@@ -59,6 +59,7 @@ def make_base(kind, seed, workdir):
         meta[b"created by"] = b"ref"
         meta[b"creation date"] = 1
         meta[b"zz-list"] = [b"\x80", 7, [b"a"]]
+        meta[b"\xffnon-utf8-key"] = {b"\xfe": 1, b"a": b"\x00"}
         meta[b"announce"] = b"http://f/a"
         meta[b"announce-list"] = [[b"http://f/a"], [b"http://f/b"]]
         meta[b"info"][b"x-info"] = [b"\x80\x81", 1]
@@ -746,8 +747,10 @@ class EditFaults:
                             "operations": [list(x) for x in r["shim"].log]})
             kind, data = r["final"]
             fault = r["fault"][1] if r["fault"] else "none"
-            fclass = fault.split("-after-")[0].split(":")[0] + ":" + \
-                (r["fault"][0] if r["fault"] else "")
+            fkind = fault.split("-after-")[0].split(":")[0]
+            if fkind.startswith("short-write"):
+                fkind = "short-write"
+            fclass = fkind + ":" + (r["fault"][0] if r["fault"] else "")
             prob = None
             if kind != "file":
                 prob = "metafile-" + kind
